@@ -69,7 +69,7 @@ var (
 	residueKey = []byte{0xFE, 'r', 'e', 's'}
 	callAmts   = []int64{1, 2, 3}
 	syms       = []string{"AAA", "BBB", "CCC"}
-	holders    = []string{"worker", "rev0", "rev1", "rA", "rB"}
+	holders    = []string{"worker", "rev0", "rev1", "rA", "rB", "sender"}
 )
 
 type Consts struct {
@@ -146,6 +146,7 @@ func New(t *testing.T, c Consts) *Adapter {
 	a.addr["rev1"] = a.I.Reverter
 	a.addr["rA"] = common.HexToAddress(world.DetExt("c18/refund/A")) // holds nothing
 	a.addr["rB"] = common.HexToAddress(world.DetExt("c18/refund/B")) // holds 10 of each token of its own
+	a.addr["sender"] = common.HexToAddress(world.DetExt("c18/callsender"))
 	// bridge tokens A, B, C: coins registered by governance (alias = bridge denom) + observed MsgBridgeTokenClaim
 	for i, s := range syms {
 		tc := world.DetExt("c18/token/" + s)
@@ -336,7 +337,7 @@ func gasIndex(fp string) (int, bool) {
 }
 
 func (a *Adapter) runCall(ctx sdk.Context, fp, rf string, designated bool) string {
-	target := "worker"
+	target, memo := "worker", ""
 	toks := append([]string{}, a.tok...)
 	var off []int // token pairs disabled for the duration of the step
 	limit := uint64(0)
@@ -346,6 +347,10 @@ func (a *Adapter) runCall(ctx sdk.Context, fp, rf string, designated bool) strin
 		target = "rev0"
 	case fp == "revert1":
 		target = "rev1"
+	case fp == "sct0": // "send call to" memo: the tokens go to the sender, who calls the target himself
+		target, memo = "rev0", hex.EncodeToString(types.MemoSendCallTo.Bytes())
+	case fp == "sct1":
+		target, memo = "rev1", hex.EncodeToString(types.MemoSendCallTo.Bytes())
 	case fp == "unknown":
 		toks[1] = world.DetExt("c18/token/unregistered")
 	case fp == "gaslow":
@@ -382,7 +387,7 @@ func (a *Adapter) runCall(ctx sdk.Context, fp, rf string, designated bool) strin
 	}
 	n := a.lastObs(ctx) + 1
 	err := a.claim(ctx, &types.MsgBridgeCallClaim{Sender: world.DetExt("c18/callsender"), Refund: a.addr[rf].Hex(), TokenContracts: toks, Amounts: amts,
-		To: a.addr[target].Hex(), Data: "", Value: sdkmath.ZeroInt(), Memo: "", TxOrigin: world.DetExt("c18/txorigin")})
+		To: a.addr[target].Hex(), Data: "", Value: sdkmath.ZeroInt(), Memo: memo, TxOrigin: world.DetExt("c18/txorigin")})
 	if err != nil {
 		a.LastErr = err.Error()
 		return "rej"
